@@ -14,6 +14,9 @@ from .shapes import NS
 # ---------------------------------------------------------------- instrumented / helper classes for concretisation
 class Opaque:
     def __repr__(self): return 'Opaque()'
+class Attrs:
+    def __init__(self, **kw): self.__dict__.update(kw)
+    def __repr__(self): return 'Attrs(' + ', '.join(f'{k}={v!r}' for k, v in self.__dict__.items()) + ')'
 class UserSeq(cabc.Sequence):
     def __init__(self, items=()): self._i = list(items)
     def __len__(self): return len(self._i)
@@ -81,7 +84,7 @@ class _CView:
     def __init__(self, v): self.v = v
     def __iter__(self): return _CIter(iter(self.v))
     def __len__(self): return len(self.v)
-for _c in (Opaque, UserSeq, UserColl, UserSet, UserMap, OneShot, SizedOneShot, SizedOnly, CList, CTuple, CSet, CFrozenSet, CDeque, CDict):
+for _c in (Attrs, Opaque, UserSeq, UserColl, UserSet, UserMap, OneShot, SizedOneShot, SizedOnly, CList, CTuple, CSet, CFrozenSet, CDeque, CDict):
     NS[_c.__name__] = _c
 COUNTING = {list: CList, tuple: CTuple, set: CSet, frozenset: CFrozenSet, collections.deque: CDeque, dict: CDict}
 
